@@ -209,6 +209,12 @@ MUST_FIRE += [
     ("m70", ["C13"], ["A3"], rep1(S + "circuit_lookup.py", "result.circuits = [circuit.copy() for circuit in self.circuits]", "result.circuits = [copy.copy(circuit) for circuit in self.circuits]"), "shallow copies of the cached circuits"),
     ("m71", ["C09"], ["W9"], rep1(S + "mub_circuits.py", "return circuit_lookup.mub_circuit_lookup(num_qubits, connectivity).circuits", "return [c for c in circuit_lookup.mub_circuit_lookup(num_qubits, connectivity).circuits if len(c.data) > 0]"), "identity circuit filtered out of the list"),
     ("m73", ["C13"], ["A3", "A5"], multi(rep1(S + "circuit_lookup.py", "def parse_circuit(num_qubits: int, circuit_string: str) -> QuantumCircuit:", "@functools.lru_cache(maxsize=None)\ndef parse_circuit(num_qubits: int, circuit_string: str) -> QuantumCircuit:"), rep1(S + "circuit_lookup.py", "import copy\n", "import copy\nimport functools\n")), "loader memoised with lru_cache, result handed out uncopied"),
+    ("m74", ["C13"], ["A3"], multi(rep1(S + "mub_circuits.py", "    mub_info = circuit_lookup.mub_circuit_lookup(num_qubits, connectivity)\n    info = {}", "    if (num_qubits, connectivity) in _info_memo:\n        return _info_memo[(num_qubits, connectivity)]\n    mub_info = circuit_lookup.mub_circuit_lookup(num_qubits, connectivity)\n    info = {}"),
+                                         rep1(S + "mub_circuits.py", "    info[\"average two-qubit count\"] = mub_info.total_cost / info[\"num circuits\"]\n    return info", "    info[\"average two-qubit count\"] = mub_info.total_cost / info[\"num circuits\"]\n    _info_memo[(num_qubits, connectivity)] = info\n    return dict(info)"),
+                                         rep1(S + "mub_circuits.py", "def get_mub_info(", "_info_memo = {}\n\n\ndef get_mub_info(")), "memo: first call returns a copy, later calls the cached dictionary itself"),
+    ("m75", ["C13"], ["A2"], multi(rep1(S + "mub_circuits.py", "    mub_info = circuit_lookup.mub_circuit_lookup(num_qubits, connectivity)\n    info = {}", "    if num_qubits in _info_memo:\n        return dict(_info_memo[num_qubits])\n    mub_info = circuit_lookup.mub_circuit_lookup(num_qubits, connectivity)\n    info = {}"),
+                                         rep1(S + "mub_circuits.py", "    info[\"average two-qubit count\"] = mub_info.total_cost / info[\"num circuits\"]\n    return info", "    info[\"average two-qubit count\"] = mub_info.total_cost / info[\"num circuits\"]\n    _info_memo[num_qubits] = info\n    return dict(info)"),
+                                         rep1(S + "mub_circuits.py", "def get_mub_info(", "_info_memo = {}\n\n\ndef get_mub_info(")), "memo keyed without the connectivity"),
     ("m72", ["C13"], ["A3"], rep1(S + "circuit_lookup.py", "result.circuits = [circuit.copy() for circuit in self.circuits]", "result.circuits = list(self.circuits)"), "fresh list of the cached circuits"),
 ]
 
@@ -228,6 +234,9 @@ MUST_STAY_SILENT = [
     ("s13", ["C02", "C04", "C17", "C05"], (lambda tree: {D + "stabilizer3-linear.txt": tree.read(D + "stabilizer3-linear.txt").replace(" h", "  h", 3).rstrip("\n") + "\n\n"}), False, "doubled spaces and blank line at the end"),
     ("s14", ["C16", "C18"], rep1(S + "f2_algebra.py", "    return np.array(out, dtype=np.int8).reshape((len(out), cols))\n", "    if len(out) == 0:\n        return np.zeros((0, cols), dtype=np.int8)\n    return np.array(out)\n"), False, "explicit typed guard"),
     ("s04", ["C13", "C02", "C09"], multi(rep1(S + "circuit_lookup.py", "        mubInfo = MUBInfo(num_qubits, lines)\n", "        mubInfo = _load_mub(num_qubits, filename)\n"), rep1(S + "circuit_lookup.py", "mub_file_cache = {}\n", "mub_file_cache = {}\n\n\n@functools.lru_cache(maxsize=None)\ndef _load_mub(num_qubits, filename):\n    return MUBInfo(num_qubits, pkg_resources.read_text(data, filename).split(\"\\n\"))\n"), rep1(S + "circuit_lookup.py", "import copy\n", "import copy\nimport functools\n")), False, "loader behind lru_cache, callers still copy"),
+    ("s17", ["C13", "C09"], multi(rep1(S + "mub_circuits.py", "    mub_info = circuit_lookup.mub_circuit_lookup(num_qubits, connectivity)\n    info = {}", "    if (num_qubits, connectivity) in _info_memo:\n        return dict(_info_memo[(num_qubits, connectivity)])\n    mub_info = circuit_lookup.mub_circuit_lookup(num_qubits, connectivity)\n    info = {}"),
+                                         rep1(S + "mub_circuits.py", "    info[\"average two-qubit count\"] = mub_info.total_cost / info[\"num circuits\"]\n    return info", "    info[\"average two-qubit count\"] = mub_info.total_cost / info[\"num circuits\"]\n    _info_memo[(num_qubits, connectivity)] = info\n    return dict(info)"),
+                                         rep1(S + "mub_circuits.py", "def get_mub_info(", "_info_memo = {}\n\n\ndef get_mub_info(")), False, "correct memo: complete key, copies on both paths"),
     ("s16", ["C09", "C13", "C02"], rep1(S + "mub_circuits.py", "return circuit_lookup.mub_circuit_lookup(num_qubits, connectivity).circuits", "return [c for c in circuit_lookup.mub_circuit_lookup(num_qubits, connectivity).circuits]"), False, "identity comprehension"),
     ("s15", ["C13"], rep1(S + "graph.py", "    def copy(self):\n        result = Graph(self.num_vertices)", "    def copy(self):\n        # fresh object\n        result = Graph(self.num_vertices)"), False, "comment"),
 ]
